@@ -19,7 +19,6 @@ import (
 	"strconv"
 	"strings"
 	"testing"
-	"testing/synctest"
 	"time"
 
 	"github.com/ozontech/file.d/fd"
@@ -33,12 +32,8 @@ import (
 
 const P = "C16"
 
-// hostT is the *testing.T the synctest bubbles hang off (run() is a pure
-// function of the case and gets no T of its own).
-var hostT *testing.T
-
 func TestMain(m *testing.M)   { fdkit.InstallLogger(); vkit.Main(m) }
-func TestReplay(t *testing.T) { hostT = t; vkit.Replay(t) }
+func TestReplay(t *testing.T) { vkit.Replay(t) }
 
 // ------------------------------------------------------------------ case
 
@@ -75,20 +70,22 @@ type Step struct {
 	SubNs int64  `json:"sub_ns,omitempty"`
 	TZMin int    `json:"tz_min,omitempty"` // rfc3339 rendering zone offset
 	Raw   string `json:"raw,omitempty"`
-	Pad   int    `json:"pad,omitempty"` // length of the "pad" field (varies the event size)
+	Pad   int    `json:"pad,omitempty"`  // length of the "pad" field (varies the event size)
+	Proc  int    `json:"proc,omitempty"` // which plugin instance (processor) handles the event
 }
 
 // Case is a throttle configuration plus a history.
 type Case struct {
 	ThrottleField string  `json:"throttle_field"`
-	TimeField     string  `json:"time_field"`   // "" = current time is taken
-	TimeFormat    string  `json:"time_format"`  // rfc3339nano | unixtimemilli
+	TimeField     string  `json:"time_field"`  // "" = current time is taken
+	TimeFormat    string  `json:"time_format"` // rfc3339nano | unixtimemilli
 	DefaultLimit  int64   `json:"default_limit"`
 	DefaultKind   string  `json:"default_kind"`
 	DefaultDist   *Dist   `json:"default_dist,omitempty"`
 	BucketsCount  int     `json:"buckets_count"`
 	IntervalMs    int64   `json:"interval_ms"`
 	Rules         []Rule  `json:"rules"`
+	Procs         int     `json:"procs,omitempty"` // plugin instances sharing the pipeline name, as the processors of one pipeline do (0 = 1)
 	Steps         []Step  `json:"steps"`
 	MetaKey       *string `json:"meta_key,omitempty"` // second run without the events of this throttle key
 }
@@ -161,9 +158,13 @@ func gen(t *rapid.T) Case {
 	c.ThrottleField = rapid.SampledFrom([]string{"pod", "pod", "pod", "meta.pod", ""}).Draw(t, "throttle_field")
 	c.TimeField = rapid.SampledFrom([]string{"time", "time", "time", "ts", ""}).Draw(t, "time_field")
 	c.TimeFormat = rapid.SampledFrom([]string{"rfc3339nano", "rfc3339nano", "rfc3339nano", "unixtimemilli"}).Draw(t, "time_format")
-	c.BucketsCount = rapid.SampledFrom([]int{1, 2, 2, 3, 3, 4, 5, 8}).Draw(t, "buckets_count")
+	c.BucketsCount = rapid.SampledFrom([]int{1, 2, 2, 3, 3, 4, 5, 8, 1, 2, 3, 4, 16, 60}).Draw(t, "buckets_count")
 	c.IntervalMs = rapid.SampledFrom([]int64{100, 100, 1000, 1000, 1000, 1000, 1500, 1500, 7000, 7000, 60000, 60000, 3600000}).Draw(t, "interval_ms")
+	if c.BucketsCount > 8 && c.IntervalMs > 7000 {
+		c.IntervalMs = 1000 // keeps the virtual duration (1 s maintenance ticks) of a window crossing small
+	}
 	I, N := c.IntervalMs, int64(c.BucketsCount)
+	c.Procs = rapid.SampledFrom([]int{1, 1, 2, 3}).Draw(t, "procs")
 
 	c.DefaultKind = genKind(t, "default_kind")
 	hasDefDist := rapid.IntRange(0, 3).Draw(t, "default_has_dist") == 0
@@ -261,6 +262,9 @@ func gen(t *rapid.T) Case {
 			}
 		}
 		s.Pad = rapid.SampledFrom([]int{0, 0, 0, 1, 10, 50, 120, 300}).Draw(t, "pad")
+		if c.Procs > 1 {
+			s.Proc = rapid.IntRange(0, c.Procs-1).Draw(t, "proc")
+		}
 		abs := bubbleEpochMs + nowRel
 		curStart := abs - abs%I
 		s.Time = "at"
@@ -312,6 +316,9 @@ func gen(t *rapid.T) Case {
 			}
 			for _, f := range condFields {
 				s.Fields[f] = rapid.SampledFrom(condValues).Draw(t, "tail_cond")
+			}
+			if c.Procs > 1 {
+				s.Proc = rapid.IntRange(0, c.Procs-1).Draw(t, "tail_proc")
 			}
 			c.Steps = append(c.Steps, s)
 		}
@@ -475,21 +482,18 @@ type execResult struct {
 // execute runs the history against a fresh plugin instance inside a synctest bubble.
 func execute(c Case, steps []Step) *execResult {
 	res := &execResult{}
-	if hostT == nil {
-		panic("c16: no host *testing.T")
-	}
-	synctest.Test(hostT, func(*testing.T) {
-		var plugin pipeline.ActionPlugin
-		started := false
+	// vkit.Bubble = testing/synctest bubble hanging off the running test (Prop.Check / Replay register it)
+	vkit.Bubble(func() {
+		var plugins []pipeline.ActionPlugin
 		defer func() {
 			if r := recover(); r != nil {
 				res.panicVal, res.panicStk = r, string(debug.Stack())
 			}
-			if started {
+			for _, pl := range plugins {
 				// ends the maintenance goroutine; without it the bubble never becomes empty
 				func() {
 					defer func() { _ = recover() }()
-					plugin.Stop()
+					pl.Stop()
 				}()
 			}
 		}()
@@ -499,31 +503,39 @@ func execute(c Case, steps []Step) *execResult {
 		if err != nil {
 			panic(err)
 		}
-		config, err := pipeline.GetConfig(info, configJSON(c), nil)
-		if err != nil {
-			res.rejected = "GetConfig: " + err.Error()
-			return
-		}
-		anyPlugin, _ := info.Factory()
-		plugin = anyPlugin.(pipeline.ActionPlugin)
+		// one plugin instance per processor, all with the same pipeline name, metric controller and
+		// settings — what Pipeline.Start does for every processor
 		name := fdkit.UniqueName("c16")
-		params := &pipeline.ActionPluginParams{
-			PluginDefaultParams: pipeline.PluginDefaultParams{
-				PipelineName:     name,
-				PipelineSettings: fdkit.DefaultSettings(),
-				MetricCtl:        fdkit.MetricCtl(name),
-			},
-			Logger: fdkit.NewLogger().Sugar(),
+		ctl := fdkit.MetricCtl(name)
+		settings := fdkit.DefaultSettings()
+		procs := c.Procs
+		if procs < 1 {
+			procs = 1
 		}
-		if rec, _ := fdkit.CatchPanic(func() { plugin.Start(config, params) }); rec != nil {
-			if fp, ok := rec.(fdkit.FatalPanic); ok {
-				// Start cancels nothing on Fatal before the context exists; nothing to stop
-				res.rejected = "Start: " + fp.Msg
+		for pi := 0; pi < procs; pi++ {
+			config, err := pipeline.GetConfig(info, configJSON(c), nil)
+			if err != nil {
+				res.rejected = "GetConfig: " + err.Error()
 				return
 			}
-			panic(rec)
+			anyPlugin, _ := info.Factory()
+			plugin := anyPlugin.(pipeline.ActionPlugin)
+			params := &pipeline.ActionPluginParams{
+				PluginDefaultParams: pipeline.PluginDefaultParams{PipelineName: name, PipelineSettings: settings, MetricCtl: ctl},
+				Logger:              fdkit.NewLogger().Sugar(),
+				Index:               0,
+			}
+			// registered before Start: a Fatal on a rule's distribution comes after the maintenance
+			// goroutine was spawned, so Stop must run even then (Stop of a never-started instance is recovered)
+			plugins = append(plugins, plugin)
+			if rec, _ := fdkit.CatchPanic(func() { plugin.Start(config, params) }); rec != nil {
+				if fp, ok := rec.(fdkit.FatalPanic); ok {
+					res.rejected = "Start: " + fp.Msg
+					return
+				}
+				panic(rec)
+			}
 		}
-		started = true
 
 		elapsed := int64(0)
 		for _, s := range steps {
@@ -545,7 +557,7 @@ func execute(c Case, steps []Step) *execResult {
 				panic(fmt.Sprintf("c16 harness: event does not decode: %v: %s", err, text))
 			}
 			ev := &pipeline.Event{Root: root, Size: len(text)}
-			r := plugin.Do(ev)
+			r := plugins[s.Proc%procs].Do(ev)
 			insaneJSON.Release(root)
 			switch r {
 			case pipeline.ActionPass:
@@ -637,6 +649,10 @@ type evalInfo struct {
 	exceeded bool // some event arrived when its bucket was already full
 	oldSlot  bool // an event was booked into a non-newest bucket of the window
 	remapped bool // an out-of-window time was booked into the newest bucket
+	// observation, not asserted: with a distribution the bucket's passes exceeded the plain limit because every
+	// share is rounded on its own (e.g. limit 1, ratios 0.5/0.5 -> shares 1+1); the property only bounds the
+	// total by the sum of the shares and the README does not say how shares are rounded
+	overLimitByRounding bool
 }
 
 // judge replays the decisions against the naive model and reports the first violated clause.
@@ -756,6 +772,9 @@ func judge(o *vkit.Outcome, c Case, steps []Step, res *execResult, info *evalInf
 			o.Failf(P, "dist-total-over-sum-of-shares:"+sigKind, "%s PASSED: total passed in the bucket becomes %d > sum of shares %d (distribution %+v)", where(), passedTotal+amount, sumHi, *d)
 			return
 		}
+		if passed && passedTotal+amount > sp.limit {
+			info.overLimitByRounding = true
+		}
 		if g > 0 {
 			b := share(d.Ratios[g-1].Pct, sp.limit)
 			if st.seen[g] >= b.lo {
@@ -781,14 +800,21 @@ func judge(o *vkit.Outcome, c Case, steps []Step, res *execResult, info *evalInf
 			if st.seen[0] >= defShare.lo {
 				info.exceeded = true
 			}
+			if passed && sumPct == 100 {
+				// README note 2: "If sum of ratios less than 1, then adding default distribution with ratio 1-sum,
+				// otherwise default distribution isn't used. All events for which the value in the field doesn't fall
+				// into any of the distributions: fall into default distribution, if it exists; throttled, otherwise"
+				o.Failf(P, "dist-unlisted-passed-without-default-distribution", "%s PASSED: value %q is not listed, the ratios sum to 1 so there is no default distribution and README says such events are throttled (distribution %+v)", where(), val, *d)
+				return
+			}
 			if !passed && st.seen[0]+amount <= defShare.lo {
 				// README: "there will be AT LEAST <default share> other events"
 				o.Failf(P, "dist-default-rejected-under-share:"+sigKind, "%s REJECTED: unlisted value %q, default share >= %d, unlisted events seen incl. this one %d", where(), val, defShare.lo, st.seen[0]+amount)
 				return
 			}
-			if !passed && sp.kind != "size" && seenListed == 0 && st.seen[0]+amount <= sumLo {
-				// README: "(can be up to <limit> if there are no events with <listed values>)"; asserted for the
-				// count kind only (with sizes an event may fit no single share although the sum has room)
+			if !passed && sp.kind != "size" && sumPct < 100 && seenListed == 0 && st.seen[0]+amount <= sumLo {
+				// README: "(can be up to <limit> if there are no events with <listed values>)" — only a default
+				// distribution that exists can steal (note 3); asserted for the count kind only (with sizes an event may fit no single share although the sum has room)
 				o.Failf(P, "dist-default-rejected-with-free-shares:"+sigKind, "%s REJECTED: unlisted value %q, no listed value seen in this bucket, unlisted seen incl. this one %d <= sum of shares %d", where(), val, st.seen[0]+amount, sumLo)
 				return
 			}
@@ -810,7 +836,7 @@ func max64(a, b int64) int64 {
 // ------------------------------------------------------------------ run
 
 func validCase(c Case) bool {
-	if c.BucketsCount < 1 || c.BucketsCount > 64 || c.IntervalMs < 1 || len(c.Steps) > 2000 {
+	if c.BucketsCount < 1 || c.BucketsCount > 64 || c.Procs < 0 || c.Procs > 8 || c.IntervalMs < 1 || len(c.Steps) > 2000 {
 		return false
 	}
 	var total int64
@@ -898,6 +924,7 @@ func run(c Case) *vkit.Outcome {
 	}
 	nEvents, nPass := 0, 0
 	usedDist, usedSize, usedRule := false, false, false
+	timeAbsent, timeRaw := false, false
 	specs := c.specs()
 	for i, s := range c.Steps {
 		if s.SleepMs > 0 {
@@ -919,10 +946,16 @@ func run(c Case) *vkit.Outcome {
 		}
 		switch s.Time {
 		case "absent":
-			o.Class("event-time-absent")
+			timeAbsent = true
 		case "raw":
-			o.Class("event-time-unparsable-or-extreme")
+			timeRaw = true
 		}
+	}
+	if timeAbsent {
+		o.Class("event-time-absent")
+	}
+	if timeRaw {
+		o.Class("event-time-unparsable-or-extreme")
 	}
 	vkit.ClassN(P, "events", nEvents)
 	vkit.ClassN(P, "events-passed", nPass)
@@ -939,6 +972,9 @@ func run(c Case) *vkit.Outcome {
 	if info.remapped {
 		o.Class("out-of-window-time-remapped")
 	}
+	if info.overLimitByRounding {
+		o.Class("observed:distribution-passes-exceed-plain-limit-by-share-rounding")
+	}
 	if usedDist {
 		o.Class("distribution-used")
 	}
@@ -950,6 +986,9 @@ func run(c Case) *vkit.Outcome {
 	}
 	if c.TimeField == "" {
 		o.Class("no-time-field")
+	}
+	if c.Procs > 1 {
+		o.Class("several-plugin-instances")
 	}
 	// non-trivial: some key exceeded its limit in some bucket AND the clock crossed >= buckets_count intervals
 	if info.exceeded && crossed >= int64(c.BucketsCount) {
@@ -967,4 +1006,4 @@ func verdict(d int8) string {
 
 var prop = vkit.NewProp([]string{P}, "c16throttle", gen, run)
 
-func TestC16Throttle(t *testing.T) { hostT = t; prop.Check(t) }
+func TestC16Throttle(t *testing.T) { prop.Check(t) }
